@@ -66,6 +66,22 @@ def run(ctx):
         spaces.append(gen.Space(f"labels{n}", {"vals": VALSETS[n], "codes": codes, "req": REQS, "sort": [True, False], "fill": FILLS + [None],
                                                "min_count": MINCOUNTS, "func": FUNCS, "engine": [None, "numpy", "flox", "numbagg"], "mode": modes,
                                                "label_kind": ["int", "str", "float"]}, build))
+    # many requested labels at once (float / string levels), unrequested labels repeated in between
+    def build_wide(codes, nreq, kind, func, fill, mode, sort):
+        req = list(range(0, 2 * nreq, 2))
+        if not sort:
+            req = req[::-1]
+        vals = [gen.iv((5 * i) % 9 - 4) if i % 6 != 5 else gen.NAN for i in range(len(codes))]
+        c = {"func": func, "vals": vals, "dtype": "f8", "codes": codes, "label_kind": kind, "req": req, "sort": sort, "fill": fill, "min_count": None,
+             "ddof": None}
+        if mode != "eager":
+            c.update(method=mode, chunks=[4, 4, 4])
+        return c
+
+    wide_codes = [[1, 1, 2, 3, 3, 3, 10, 11, 11, 40, 41, 41], [7, 7, 7, 6, 8, 8, 21, 21, 20, 59, 59, 58], [0, 2, 4, 5, 5, 6, 6, 9, 9, 9, 30, 31],
+                  [33, 33, 32, 34, 35, 35, 1, 1, 0, 2, 77, 77]]
+    spaces.append(gen.Space("wide", {"codes": wide_codes, "nreq": [12, 20, 30], "kind": ["wide", "widestr"], "func": ["sum", "count", "nanmax", "nanmean", "nanfirst"],
+                                     "fill": [[0, 1], [-1, 1], [0, 0]], "mode": ["eager", "map-reduce", "cohorts", None], "sort": [True, False]}, build_wide))
     budget = 30000 if ctx.tier == "quick" else 500000
     cases = []
     for sp in spaces:
